@@ -209,6 +209,12 @@ def r2(ctx):
     ctx.ob(push.qual, "position-of-pushed-item", ok, push.loc(st[0].stmt) if st else push.loc(), "positions[item] = index of the pushed slot" if ok else "positions[...] is not set to the pushed slot's index under the pushed item")
     ent = {u(s.target): u(s.value) for s in util.store_sites(push.node) if s.kind == "attr" and u(s.target.value) == "entry"}
     ok = ent == {"entry.first": score_p, "entry.second": item_p} and pb and u(pb[0].args[0]) == "entry"
+    if not ent and pb and isinstance(pb[0].args[0], ast.Call) and u(pb[0].args[0].func) in ("queue_entry_type", "pair", "make_pair") and len(pb[0].args[0].args) == 2:
+        # the pair is built in place: queue_entry_type(score, item)
+        ent = {"first": u(pb[0].args[0].args[0]), "second": u(pb[0].args[0].args[1])}
+        ok = ent == {"first": score_p, "second": item_p}
+    elif not ent:
+        ok = None
     ctx.ob(push.qual, "entry-holds-score-and-item", ok, push.loc(), "the pushed entry is (score, item)" if ok else "pushed entry fields are %s" % ent)
     problems, n_paths, pop, pcfg = _pop_paths(ctx)
     r2_keys = [("first-and-last-entry", "the popped entry is heap[0]; with more than one entry the last entry heap[size-1] is read before the heap shrinks"), ("popped-item-erased-on-every-path", "positions.erase(popped item) happens on every path that returns an entry"), ("heap-shrinks-on-every-path", "heap.pop_back() happens on every path that returns an entry"), ("moved-last-entry-repointed-to-0", "exactly when more than one entry exists the last entry moves to slot 0 and its position becomes 0"), ("empty-queue-raises", "popping an empty queue raises")]
@@ -228,8 +234,13 @@ def r2(ctx):
     # reads happen before the writes
     if ok:
         scfg = ctx.cfg(sw)
-        first_store = min(scfg.node_of(s.stmt) for s in util.store_sites(sw.node) if s.kind == "subscript")
-        reads_ok = all(scfg.find_path(first_store, scfg.node_of(util.stmt_of(v))) is None for v in defs.values())
+        # per container: an entry / a position is read before anything is stored into that container (the locals are copies)
+        reads_ok = True
+        for k_, v in defs.items():
+            cont = "self.heap" if k_.startswith("entry") else "self.positions"
+            for s_ in util.store_sites(sw.node):
+                if s_.kind == "subscript" and u(s_.target.value) == cont and scfg.find_path(scfg.node_of(s_.stmt), scfg.node_of(util.stmt_of(v))) is not None:
+                    reads_ok = False
         ctx.ob(sw.qual, "reads-before-writes", reads_ok, sw.loc(), "both entries and positions are read before anything is overwritten" if reads_ok else "_swap overwrites a slot before reading it")
 
 
@@ -489,7 +500,7 @@ def r3(ctx):
     sl = ctx.func(PQ + "._score_lower")
     ret = [n for n in walk_function(sl.node) if isinstance(n, ast.Return)][0].value
     i1, i2 = util.params_of(sl.node)[1:3]
-    ok = u(ret) == "_vector_score_lower(entry1.first, entry2.first)" and u(util.single_def(sl.node, "entry1")) == "self.heap[%s]" % i1 and u(util.single_def(sl.node, "entry2")) == "self.heap[%s]" % i2
+    ok = u(util.expand_single_defs(sl.node, ret)) == "_vector_score_lower(self.heap[%s].first, self.heap[%s].first)" % (i1, i2)
     ctx.ob(sl.qual, "score-lower-compares-slots-in-order", ok, sl.loc(), "_score_lower(i, j) = score(heap[i]) < score(heap[j])" if ok else "_score_lower compares %s" % u(ret))
 
 
